@@ -30,8 +30,8 @@ ASSUMPTIONS = [
 ]
 DECIDING = [("gate_inds", "value"), ("ag_gate", "value"), ("gate_1d", "value"),
             ("gate_inds", "outer_inds")]
-SUITE = ["tests/test_tensor/test_gating.py", "tests/test_tensor/test_tensor_1d.py",
-         "tests/test_tensor/test_tensor_arbgeom.py"]
+SUITE = ["tests/test_tensor/test_gating.py", "tests/test_tensor/test_tn1d/test_core.py",
+         "tests/test_tensor/test_tnag/test_core.py"]
 MANIFEST = dict(
     technique="runtime pre/post monitors on the real gate entry points (index level and site level) vs explicit dense operator embedding; structural postconditions on outer labels, site tags and class",
     text="For every gate call the workloads make (and nested ones: ag gate -> gate_inds, MPS gate_split -> gate_inds, auto-swap -> swaps + split ...) the dense tensor over the outer labels after the call must equal the operator, reshaped per site in the given site order and transposed/conjugated as requested, applied to the dense tensor before the call; outer labels must be the same set, pre-existing site tags must survive and the network class / site naming must be unchanged.",
